@@ -2,6 +2,7 @@ package main
 
 import (
 	"fmt"
+	"go/types"
 	"strings"
 
 	"golang.org/x/tools/go/ssa"
@@ -32,6 +33,7 @@ func runC18(c *Ctx) {
 	c.Doc("R18.2", "no call under a held mutex reaches a method that acquires the same mutex on the same receiver; the class-level lock order graph is acyclic")
 	c.Doc("R18.3", "insertion of a new instance into SubCache.cached happens in the write-locked region that also tested for its absence")
 	c.Doc("R18.4", "guarded-by table: SubCache.excerpts/cached ↔ mu, RepoCache.userIdentityId ↔ muUserIdentity (write ⇒ write lock), GoGitRepo.clocks ↔ clocksMutex, GoGitRepo.indexes ↔ indexesMutex, withSnapshot.snap ↔ mu")
+	checkLRUAndWriteSection(c, lw)
 	fns := lockScopeFns(w)
 	exemptHold := map[string]string{
 		"cache.CachedEntityBase.Lock": "documented: locks an evicted instance forever so that stale users block instead of diverging",
@@ -327,4 +329,112 @@ func lockFindingKey(what string) string {
 		return "double-acquire"
 	}
 	return "other"
+}
+
+// R18.7–R18.9 (second round of seeded changes)
+func checkLRUAndWriteSection(c *Ctx, lw *lockWorld) {
+	w := c.W
+	c.Doc("R18.7", "SubCache.Resolve tells the LRU about every instance it hands out: no success return is reachable without lru.Get or lru.Add of the resolved id — an entity in constant use must not drift to the oldest position and be evicted (and locked for good) under its user")
+	c.Doc("R18.8", "SubCache.write serialises the excerpts and replaces the cache file inside one critical section of sc.mu: every file-writing call of write happens with the lock held, so two concurrent writers cannot store their files in the opposite order of their snapshots")
+	c.Doc("R18.9", "the LRU list is mutated by Get/Add/Remove from code that holds sc.mu for reading only (Resolve), so lruIdCache must wrap the synchronised lru.Cache; an unsynchronised list is accepted only if every call site holds sc.mu for writing")
+	// R18.7
+	if rs := w.Method("cache", "SubCache", "Resolve"); rs != nil {
+		rs = bodyOf(rs)
+		c.seeFn(funcName(rs))
+		isTouch := func(i ssa.Instruction) bool {
+			ci, ok := i.(ssa.CallInstruction)
+			if !ok {
+				return false
+			}
+			n, _ := callName(ci.Common())
+			return strings.HasSuffix(n, "lruIdCache.Add") || strings.HasSuffix(n, "lru.Cache.Get") || strings.HasSuffix(n, ".Get") && strings.Contains(n, "lru") || strings.HasSuffix(n, "lruIdCache.Get")
+		}
+		bad, p, _ := pathAvoiding(rs, nil, isSuccessReturn, isTouch)
+		c.Sites++
+		c.Check(!bad, "R18.7", "cache.SubCache.Resolve:use-refreshes-lru", w.FnPos(rs), "every success return passes lru.Get / lru.Add", "an instance is handed out without refreshing its LRU position ("+blocksString(w, p)+"): an entity that is resolved and used all the time still becomes the oldest one, is evicted while in use and locked for good — its user hangs on the next edit")
+	} else {
+		c.Undecided("R18.7", "anchor:SubCache.Resolve", "cache", "not found")
+	}
+	// R18.8
+	if wr := w.Method("cache", "SubCache", "write"); wr != nil {
+		wr = bodyOf(wr)
+		c.seeFn(funcName(wr))
+		li := lw.info(wr)
+		n, bad := 0, ""
+		for _, cl := range Calls(wr) {
+			e := primEffect(cl.Name)
+			if effClass(e) != "FILE" && effClass(e) != "OSFILE" && !strings.HasSuffix(cl.Name, ".Write") && !strings.HasSuffix(cl.Name, ".Close") {
+				continue
+			}
+			if strings.HasSuffix(cl.Name, "Encoder.Encode") {
+				continue
+			}
+			recv := ""
+			if len(wr.Params) > 0 {
+				recv = valueKey(wr.Params[0]) + ".mu"
+			}
+			n++
+			c.Sites++
+			if !li.holds(cl.Instr, recv, false) {
+				bad = cl.Name + " at " + w.InstrPos(cl.Instr)
+			}
+		}
+		c.Check(n > 0 && bad == "", "R18.8", "cache.SubCache.write:file-written-under-lock", w.FnPos(wr), fmt.Sprintf("%d file operations, all with sc.mu held", n), "the cache file is written ("+bad+") after the lock under which the excerpts were serialised was released: a concurrent writer holding a newer snapshot can be overwritten by an older one, the stale file is what the next process loads")
+	} else {
+		c.Undecided("R18.8", "anchor:SubCache.write", "cache", "not found")
+	}
+	// R18.9
+	p := w.Pkg("cache")
+	if p != nil {
+		if tn, ok := p.Types.Scope().Lookup("lruIdCache").(*types.TypeName); ok {
+			st, _ := tn.Type().Underlying().(*types.Struct)
+			safe := false
+			desc := "?"
+			if st != nil && st.NumFields() > 0 {
+				t := st.Field(0).Type()
+				if pt, isP := t.(*types.Pointer); isP {
+					t = pt.Elem()
+				}
+				desc = t.String()
+				if nt, isN := t.(*types.Named); isN && nt.Obj().Pkg() != nil {
+					path := nt.Obj().Pkg().Path()
+					if nt.Obj().Name() == "Cache" && strings.HasSuffix(path, "hashicorp/golang-lru/v2") {
+						safe = true
+					}
+				}
+			}
+			c.Sites++
+			if safe {
+				c.Hold("R18.9", "cache.lruIdCache:synchronised", w.Pos(tn.Pos()), "wraps the synchronised lru.Cache")
+			} else {
+				// every mutating call site must hold the write lock
+				bad := ""
+				for _, fn := range w.ModFns {
+					if fnPkgPath(fn) != modPath+"/cache" || w.isTestHelper(fn) || isWrapper(fn) {
+						continue
+					}
+					body := bodyOf(fn)
+					if body == nil || len(body.Blocks) == 0 || body.Signature.Recv() == nil {
+						continue
+					}
+					li := lw.info(body)
+					for _, cl := range Calls(body) {
+						if !strings.Contains(cl.Name, "lruIdCache.") && !(strings.Contains(cl.Name, "lru") && (strings.HasSuffix(cl.Name, ".Get") || strings.HasSuffix(cl.Name, ".Remove") || strings.HasSuffix(cl.Name, ".Add"))) {
+							continue
+						}
+						if strings.Contains(funcName(body), "lruIdCache") {
+							continue
+						}
+						key := valueKey(body.Params[0]) + ".mu"
+						if !li.holds(cl.Instr, key, true) {
+							bad = funcName(body) + " at " + w.InstrPos(cl.Instr)
+						}
+					}
+				}
+				c.Check(bad == "", "R18.9", "cache.lruIdCache:synchronised", w.Pos(tn.Pos()), "every LRU call holds sc.mu for writing", "lruIdCache wraps "+desc+", which is not synchronised, and "+bad+" touches it without holding sc.mu for writing: concurrent Resolve calls corrupt the list (nil dereference / index out of range in evictIfNeeded)")
+			}
+		} else {
+			c.Undecided("R18.9", "anchor:cache.lruIdCache", "cache", "type not found")
+		}
+	}
 }
